@@ -202,6 +202,151 @@ def run_source_only(chk, model):
         chk.correspond("MATCHER-source-only", desc, impl, outs)
 
 
+# ------------------------------------------------------------------ PROJECT ---
+def _project_oracle(chk, model, what, cfg_desc, ref_m, l10n_m, ref_side, l10n_side, ref_path, l10n_path,
+                    reqs, impl, desc):
+    """reference <-> l10n on matchers taken from a ProjectConfig; the sides are what the
+    configuration says the matchers are (pattern text, environment, root)"""
+    sub_c = lambda r: [] if r is None else [canon(r)]  # noqa: E731
+    fwd = ml.impl_result(lambda: ref_m.sub(l10n_m, ref_path), sub_c)
+    back = ml.impl_result(lambda: l10n_m.sub(ref_m, l10n_path), sub_c)
+    desc += [(what, "ref->l10n", cfg_desc, ref_path), (what, "l10n->ref", cfg_desc, l10n_path)]
+    impl += [fwd, back]
+    reqs += [(3, ml.side_sx(ref_side) + ml.side_sx(l10n_side) + [canon(ref_path)]),
+             (3, ml.side_sx(l10n_side) + ml.side_sx(ref_side) + [canon(l10n_path)])]
+    case = {"config": cfg_desc, "reference": ref_side, "l10n": l10n_side, "path": ref_path}
+    if fwd != [0, [canon(l10n_path)]]:
+        chk.fail("project-reference-not-mapped", case,
+                 {"got": fwd if fwd[0] or not fwd[1] else common.l2s(fwd[1][0]), "expected": l10n_path})
+    if back != [0, [canon(ref_path)]]:
+        chk.fail("project-l10n-not-mapped-back", dict(case, path=l10n_path),
+                 {"got": back if back[0] or not back[1] else common.l2s(back[1][0]), "expected": ref_path})
+    # a path of another reference tree must not be claimed (would be missing and obsolete at once)
+    other = ref_path.replace("/browser/", "/elsewhere/", 1) if "/browser/" in ref_path else "/nowhere/" + ref_path
+    claimed = ml.impl_result(lambda: ref_m.match(other), ml.canon_dict)
+    if claimed[0] == 0 and claimed[1] and other != ref_path:
+        chk.fail("project-reference-claims-foreign-path", dict(case, path=other), {"got": claimed})
+
+
+def run_project(chk, model):
+    """matchers obtained from a ProjectConfig (programmatic add_paths with an environment,
+    and a TOML with [[includes]] parsed with env = {l10n_base: ...}) instead of Matcher(...)"""
+    import os
+    import shutil
+    import tempfile
+    from compare_locales.paths import ProjectConfig, TOMLParser
+    rng = chk.rng
+    reqs, impl, desc = [], [], []
+    tails = [("**", ["brand.ftl", "preferences/main.ftl", "a/b/c.ftl"]), ("*.ftl", ["brand", "a.b"]),
+             ("**/*.properties", None)]
+    # ---- programmatic
+    for i in range(chk.n(80, 800)):
+        loc = rng.choice(["de", "sr-Latn", "pt-BR"])
+        moz = rng.choice(["moz", "mozilla-central", "m/c"])
+        base = rng.choice(["/abs/l10n", "l10n"])
+        ref_head = rng.choice(["{mozilla}/browser/locales/en-US/", "browser/{mozilla}/en-US/",
+                               "browser/locales/en-US/"])
+        l10n_head = rng.choice(["{l10n_base}/{locale}/browser/", "{l}browser/", "{l10n_base}/{locale}/{mozilla}/"])
+        tail, fills = rng.choice(tails)
+        environ = {"mozilla": moz, "l10n_base": base}
+        if "{l}" in l10n_head:
+            environ["l"] = "{l10n_base}/{locale}/"
+        cfgpath = rng.choice(["/src/l10n.toml", "/data/c++/strings/l10n.toml"])
+        pc = ProjectConfig(cfgpath)
+        pc.set_root(".")
+        pc.add_environment(**environ)
+        pc.add_paths({"reference": ref_head + tail, "l10n": l10n_head + tail})
+        root = os.path.dirname(cfgpath)
+        if fills is None:
+            f = (rng.choice(["", "d/", "d/e/"]), rng.choice(["main", "x.y"]))
+            rt = tail.replace("**/", f[0]).replace("*", f[1])
+        else:
+            f = rng.choice(fills)
+            rt = tail.replace("**", f).replace("*", f)
+
+        def rend(head):
+            t = head.replace("{l}", "{l10n_base}/{locale}/")
+            for k, v in (("mozilla", moz), ("l10n_base", base), ("locale", loc)):
+                t = t.replace("{%s}" % k, v)
+            t = t + rt
+            return t if t.startswith("/") else root + "/" + t
+        ref_m = pc.paths[0]["reference"]
+        l10n_m = pc.paths[0]["l10n"].with_env({"locale": loc})
+        env_pairs = list(environ.items())
+        ref_side = (ref_head + tail, env_pairs, root)
+        l10n_side = (l10n_head + tail, env_pairs + [("locale", loc)], root)
+        chk.count(("project", ref_side, l10n_side, rt))
+        chk.hist("project", "programmatic")
+        _project_oracle(chk, model, "add_paths", {"path": cfgpath, "environ": environ},
+                        ref_m, l10n_m, ref_side, l10n_side, rend(ref_head), rend(l10n_head), reqs, impl, desc)
+    # ---- TOML with includes, parsed with an environment
+    tmp = os.path.realpath(tempfile.mkdtemp(prefix="c11proj"))
+    try:
+        for i in range(chk.n(12, 60)):
+            d = os.path.join(tmp, "p%d" % i, "src")
+            os.makedirs(os.path.join(d, "toolkit"))
+            os.makedirs(os.path.join(d, "devtools"))
+            l10n_base = rng.choice([os.path.join(tmp, "p%d" % i, "l10n"), "/abs/l10n-central"])
+            nested = rng.random() < 0.6
+            with open(os.path.join(d, "l10n.toml"), "w") as fh:
+                fh.write('basepath = "."\nlocales = ["de", "fr"]\n[[paths]]\n'
+                         '    reference = "app/en/*.ftl"\n    l10n = "{l10n_base}/{locale}/app/*.ftl"\n'
+                         '[[includes]]\n    path = "toolkit/l10n.toml"\n'
+                         '[[includes]]\n    path = "devtools/l10n.toml"\n')
+            with open(os.path.join(d, "toolkit", "l10n.toml"), "w") as fh:
+                if nested:
+                    fh.write('basepath = "."\n[env]\n    l = "{l10n_base}/{locale}/"\n[[paths]]\n'
+                             '    reference = "locales/en-US/**"\n    l10n = "{l}toolkit/**"\n')
+                else:
+                    fh.write('basepath = "."\n[[paths]]\n    reference = "locales/en-US/**"\n'
+                             '    l10n = "{l10n_base}/{locale}/toolkit/**"\n')
+            with open(os.path.join(d, "devtools", "l10n.toml"), "w") as fh:
+                fh.write('basepath = "."\n[[paths]]\n    reference = "client/en-US/*.properties"\n'
+                         '    l10n = "{l10n_base}/{locale}/devtools/client/*.properties"\n')
+            pc = TOMLParser().parse(os.path.join(d, "l10n.toml"), env={"l10n_base": l10n_base})
+            loc = rng.choice(["de", "fr"])
+            expect = {
+                d: ("app/en/%s.ftl", "%s/%s/app/%%s.ftl" % (l10n_base, loc), ["main", "a.b"]),
+                os.path.join(d, "toolkit"): ("locales/en-US/%s", "%s/%s/toolkit/%%s" % (l10n_base, loc),
+                                             ["global/intl.ftl", "x.ftl"]),
+                os.path.join(d, "devtools"): ("client/en-US/%s.properties",
+                                              "%s/%s/devtools/client/%%s.properties" % (l10n_base, loc), ["debugger"]),
+            }
+            seen = 0
+            for cfg in pc.configs:
+                for pth in cfg.paths:
+                    rt, lt, fills = expect[cfg.root]
+                    f = rng.choice(fills)
+                    ref_path = cfg.root + "/" + rt % f
+                    l10n_path = lt % f
+                    env_pairs = list(cfg.environ.items())
+                    ref_side = (pth["reference"].pattern_text if hasattr(pth["reference"], "pattern_text") else None)
+                    ref_text = {d: "app/en/*.ftl", os.path.join(d, "toolkit"): "locales/en-US/**",
+                                os.path.join(d, "devtools"): "client/en-US/*.properties"}[cfg.root]
+                    l10n_text = {d: "{l10n_base}/{locale}/app/*.ftl",
+                                 os.path.join(d, "toolkit"): "{l}toolkit/**" if nested else
+                                 "{l10n_base}/{locale}/toolkit/**",
+                                 os.path.join(d, "devtools"): "{l10n_base}/{locale}/devtools/client/*.properties"}[cfg.root]
+                    want_env = [("l10n_base", l10n_base)]
+                    if nested and cfg.root.endswith("toolkit"):
+                        want_env = [("l", "{l10n_base}/{locale}/")] + want_env
+                    ref_side = (ref_text, want_env, cfg.root)
+                    l10n_side = (l10n_text, want_env + [("locale", loc)], cfg.root)
+                    chk.count(("project-toml", ref_side, l10n_side, f))
+                    chk.hist("project", "toml-include" if cfg.root != d else "toml-root")
+                    _project_oracle(chk, model, "toml", {"root": cfg.root, "parser_env": {"l10n_base": l10n_base}},
+                                    pth["reference"], pth["l10n"].with_env({"locale": loc}),
+                                    ref_side, l10n_side, ref_path, l10n_path, reqs, impl, desc)
+                    seen += 1
+            if seen != 3:
+                chk.fail("project-paths-missing", {"root": d}, {"paths": seen})
+    finally:
+        shutil.rmtree(tmp, ignore_errors=True)
+    if model:
+        outs = model.call(reqs)
+        chk.correspond("PROJECT", desc, impl, outs)
+
+
 ANDROID_LAYOUT = dict(ml.LOCALES)
 ANDROID_LAYOUT.update({"bs-Cyrl": "b+bs+Cyrl", "ber-Latn": "b+ber+Latn", "be-tarask": "b+be+tarask",
                        "bg": "bg", "bn-IN": "bn-rIN", "br-Latn-FR": "b+br+Latn+FR", "bb-Bbbb": "b+bb+Bbbb"})
@@ -273,6 +418,7 @@ def run(chk, runner_ok):
     fixed.grammar_but_two = True
     run_cases(chk, model, [fixed] + cases, "MATCHER-two-starstar", two=True)
     run_source_only(chk, model)
+    run_project(chk, model)
     ml.run_wild_first(chk, model, chk.n(150, 1500))
     run_android_layout(chk, model)
     ml.run_equality(chk, model, chk.n(600, 6000))
